@@ -162,3 +162,16 @@ def gen_single(rng, name):
 def enum_positions(name):
     """{index: allowed values} for START words with a finite allowed list (used by C09 to range over enums)."""
     return {idx: s for (w, idx), s in TABLE.get(name, {}).items() if w == 'S' and not callable(s)}
+
+
+def near_miss_spellings(pid, name=''):
+    """Strings that are NOT the process a filter is compared with (its name, or its pid written the one canonical way) but
+    that a looser comparison - numeric, case-blind, stripped, prefix - would take for it."""
+    p = str(pid)
+    out = ['0' + p, '00' + p, '+' + p, ' ' + p, p + ' ', p + '\n', hex(pid), p + '.0', p + 'e0', '0o%o' % pid, '0b' + bin(pid)[2:],
+           ''.join(chr(0x0660 + int(c)) for c in p), ''.join(chr(0xff10 + int(c)) for c in p), '_'.join(p) if len(p) > 1 else p + '_',
+           '-' + p if pid else '-0']
+    if name:
+        out += [name.upper() if name.upper() != name else name.lower(), name + ' ', ' ' + name, name[:-1], name + 'x',
+                name[1:], name.swapcase(), name + '\x00']
+    return [x for x in out if x != p and x != name]
